@@ -122,6 +122,8 @@ def unplannable_class(err):
         return "SELECT * with no tables"
     if re.search(r"not supported for Null|No function matches the given name and argument types .*\(Null", err):
         return "function applied to a bare (untyped) NULL"
+    if "UNION queries have different number of columns" in err:
+        return "UNION input with an empty projection written with a different number of select items"
     if "join condition should not be empty" in err:
         return "outer join with an empty condition written without ON"
     return "other:" + sig(err)[:60]
@@ -151,6 +153,9 @@ def semantic_key(mode, name, case, v, msg, ex):
     if mode in ("c37", "c38") and not failed and name == "optimized" and "null_aware" in pt:
         return "null-aware anti join (NOT IN) loses its null awareness"
     if mode == "c38" and not failed:
+        if name == "optimized" and re.search(r"(Semi|Anti) Join:[^\n]*\n\s*Aggregate: groupBy=\[\[[^\n]*\]\], aggr=\[\[\]\]\n", pt) \
+                and gen.count("GROUP BY") + gen.count("DISTINCT") < pt.count("Aggregate:") + pt.count("Distinct:"):
+            return "optimized plan: group-by-only Aggregate (DISTINCT) that is the left input of a semi/anti Join is dropped"
         if (feats & {"setop:except", "setop:except:all", "setop:intersect", "setop:intersect:all"}) and "EXISTS (SELECT 1" in gen:
             return "EXCEPT/INTERSECT anti/semi join unparsed as [NOT] EXISTS with '=' (NULL-equal keys lost)"
         if re.search(r"NOT [\w.]+ IS (NOT )?(TRUE|FALSE|UNKNOWN|NULL)", gen) and re.search(r"NOT [\w.]+ IS ", pt):
